@@ -15,6 +15,11 @@ CLAIMED = {
    note="Trusted: rendering of a graph to library sources/files (a faulting body is (car N)), the error-kind projection, hook H2 (read-only). Where the statement does not order competing errors (cycle and failing library both reachable) any of them is accepted. Bound: 3 libraries exhaustive (<=1 faulty node quick), histories <=2 (quick) / 3 (thorough); random graphs to 6 libraries, 6 attempts.",
    technique="TLA+ state machine + TLC safety and liveness checking, replay of all explored histories, TLC trace validation",
    ref="DESIGN.md section 5, C14"),
+ "C04": dict(
+   text="Macro.tla specifies syntax-rules matching and template filling as pure functions (PMatch/MatchList: variables and _ match anything, literal identifiers only themselves, literal data only equal data, lists and vectors element-wise, a final ellipsis a run of one or more items; Expand: variables replaced, each ellipsis sub-template repeated once per matched item in order; Transform: least matching rule index or nomatch). MCMacro.tla enumerates every one-rule set over a pattern alphabet (2 variables, _, a literal identifier, data 1 and #t, nested lists/vectors, optional final ellipsis; 3 templates per pattern) against every use of up to 3 elements, and every ordered pair of flat rules; TLC checks independent laws (first-match minimality, literal/datum discrimination, length relations of ellipsis runs, template size) and prints each case. Every case is replayed on the real interpreter: define-syntax with quoted templates, then (m args...), compared on value / syntax error. Random larger rule sets (up to 6 rules, nesting 4, strings/chars, two literals) with uses derived from their own patterns and single mutations are recorded and judged by TLC against MacroTrace.tla.",
+   note="Trusted: datum renderer, value projection. Only the expander's supported class (see the property's quantifier) is generated. Hygiene (renaming of template-introduced identifiers) is not part of the property and not modelled.",
+   technique="TLA+ functional specification of the matcher/expander + TLC exhaustive enumeration with laws, replay of every case, TLC trace validation of random rule sets",
+   ref="DESIGN.md section 5, C04"),
  "C05": dict(
    text="Machine.tla gives every derived form a direct R7RS rule (not the bundled macro text). TLC runs every program of Programs!DerivedFamily (each form x truth assignment x context incl. binders of the names the bundled rules introduce, and every ordered pair nested in every sub-form position) on the machine, checks at-most-once evaluation, absence of errors, bounded continuation, and an independent statement of R7RS 4.2 for each un-nested form (SingleLaw), and prints per-form value and tick sequence; every program is replayed on the real interpreter. Seeded random nestings (depth 4, inside procedures) are recorded from the interpreter and validated by TLC against MachineTrace.tla.",
    note="Trusted: renderer AST->text, value/error projection, the host procedure tick!. Operand/initialiser order is not compared (at most one effectful operand). Core keywords are treated as reserved words. One known finding (atom-key capture in case).",
